@@ -12,7 +12,8 @@ PID = "C15"
 RULE = ("random histories (quick 30 steps, thorough up to 80) of: fresh vectors (lengths 0–3), vectors over shared caller tuples "
         "(Vector(tup) twice, Vector(v._underlying)), copies, slices, arithmetic results, tables built by >> (the double-__init__ "
         "path), Table([...]), Table({...}), live column views, attribute assignment, writes with and without promotion (every in-place "
-        "promotion route: int->float, int/float->complex, date->datetime; int, float and date vectors and caller tuples), dropping "
+        "promotion route: int->float, int/float->complex, date->datetime; int, float, date and str vectors and caller tuples), multi-column table writes that fail in their last "
+        "column and are rolled back, dropping "
         "handles, gc.collect() at random points and bursts of short-lived same-size vectors/tuples to provoke identity reuse. "
         "Every write attempt is judged: refused iff (non-empty and another LIVE object `is`-shares the storage tuple); accepted writes "
         "must leave every other live object's contents unchanged; the Lean registry model, fed with the real storage identities, "
@@ -151,14 +152,14 @@ def choose(rng, w):
     if len(vecs) >= 1:
         menu += [("stack", 4)]
     if tabs:
-        menu += [("getcol", 4), ("tabwrite_view", 2), ("write_cell", 4), ("share_col", 2)]
+        menu += [("getcol", 4), ("tabwrite_view", 2), ("write_cell", 4), ("share_col", 2), ("rowfail", 3)]
     if tabs and vecs:
         menu += [("setattr", 3)]
     ops = [m for m, k in menu for _ in range(k)]
     op = rng.choice(ops)
     if op == "newvec":
         return {"op": op, "dst": dst, "n": rng.choice([0, 1, 2, 2, 3]), "base": rng.randrange(5),
-                "kind": rng.choice(["int", "int", "int", "date", "float"])}
+                "kind": rng.choice(["int", "int", "int", "date", "float", "str"])}
     if op == "sharetuple":
         return {"op": op, "dst": dst, "k": rng.randrange(5)}
     if op == "pool":
@@ -181,6 +182,8 @@ def choose(rng, w):
         return {"op": "write_col", "t": rng.choice(tabs), "j": rng.randrange(3)}
     if op == "write_cell":
         return {"op": "write_cell", "t": rng.choice(tabs), "j": rng.randrange(3)}
+    if op == "rowfail":
+        return {"op": "rowfail", "t": rng.choice(tabs), "form": rng.choice(["row", "region"])}
     if op == "share_col":
         return {"op": "share_col", "t": rng.choice(tabs), "j": rng.randrange(3), "dst": dst}
     if op == "setattr":
@@ -209,7 +212,7 @@ def do_write_cell(t, st):
 
 
 def _mk(kind, i):
-    return _D(2021, 3, 1 + i % 28) if kind == "date" else i + 0.25 if kind == "float" else i
+    return _D(2021, 3, 1 + i % 28) if kind == "date" else i + 0.25 if kind == "float" else "s%d" % i if kind == "str" else i
 
 
 def do_write(o, st):
@@ -221,6 +224,8 @@ def do_write(o, st):
         val = _DT(2022, 5, 6, 7) if st.get("promote") else _D(2022, 5, 6)
     elif k is float:
         val = (1 + 2j) if st.get("promote") else 7.5
+    elif k is str:
+        val = "w"
     elif k is int and st.get("promote") and st.get("form") == "mask":
         val = 1 + 2j
     f = st.get("form", "int")
@@ -281,6 +286,32 @@ def run_step(slots, pool, st):
         if acc:
             setattr(t, acc[0], slots[st["src"]])
         del t
+    elif op == "rowfail":
+        # a multi-column table write that fails in its LAST column after the earlier ones accepted: the table rolls the
+        # earlier columns back, and every transient storage must leave the registry again
+        t = slots[st["t"]]
+        cols = t.cols()
+        if len(cols) >= 2 and len(t) > 0:
+            ok = {int: 7, float: 7.5, _D: _D(2023, 1, 1), _DT: _DT(2023, 1, 1, 1), str: "q", complex: 1j, bool: True}
+            vals = []
+            for j, c in enumerate(cols):
+                k = c.schema().kind if c.schema() is not None else None
+                good = ok.get(k, 7)
+                vals.append(good if j < len(cols) - 1 else (5 if k is str else "zz" if k is not object else good))
+            del cols, c
+            try:
+                if st.get("form") == "region":
+                    t[0:1, :] = [[v] for v in vals]
+                else:
+                    t[0, :] = vals
+            except serif.AliasError:
+                raise
+            except Exception:
+                pass
+            del vals
+        else:
+            del cols
+        del t
     elif op == "share_col":
         # a column assigned from a raw caller tuple, and a second vector over the same tuple: they really share storage
         t = slots[st["t"]]
@@ -309,7 +340,7 @@ def applicable(kinds, st):
         return all(k(i) == "v" for i in st["srcs"])
     if op == "stack":
         return k(st["a"]) == "v" and k(st["b"]) == "v"
-    if op in ("getcol", "write_col", "write_cell", "share_col"):
+    if op in ("getcol", "write_col", "write_cell", "share_col", "rowfail"):
         return k(st["t"]) == "t"
     if op == "setattr":
         return k(st["t"]) == "t" and k(st["src"]) == "v"
